@@ -174,9 +174,9 @@ impl<'a> Gen<'a> {
             4 => Value::TinyUnsigned(Some((t % 200) as u8)),
             5 => Value::SmallUnsigned(Some(t as u16)),
             6 => Value::Unsigned(Some(t as u32)),
-            7 => Value::BigUnsigned(Some(t as u64)),
+            7 => Value::BigUnsigned(Some(if t % 3 == 0 { u64::MAX - t as u64 } else { t as u64 })),
             8 => Value::Float(Some((t % 1000) as f32 + if t % 2 == 0 { 0.1 } else { 0.5 })),
-            9 => Value::Double(Some(t as f64 + 0.25)),
+            9 => Value::Double(Some(if t % 2 == 0 { t as f64 / 3.0 } else { t as f64 + 0.25 })),
             10 => Value::Bytes(Some(Box::new(vec![(t % 256) as u8, 0, 39, 92]))),
             11 => Value::Char(Some(*self.rng.pick(&['a', '\'', 'é', '?', '\\', '\n', '"', '\t', '𝄞']))),
             12 => Value::Json(Some(Box::new(serde_json::json!({"t": t, "q": "?'$1"})))),
@@ -601,6 +601,10 @@ impl<'a> Gen<'a> {
                     both.push(rel.clone());
                     on.push(self.boolean(&both, depth.min(1)));
                 }
+            }
+            if self.rng.chance(1, 15) {
+                // a join given an empty condition group (it renders ON TRUE)
+                on.clear();
             }
             let lateral = matches!(f, From_::Sub(..)) && !self.cfg.exec && (self.cfg.is(Dialect::Mysql) || self.cfg.is(Dialect::Postgres)) && self.rng.chance(1, 3);
             s.joins.push(Join { kind, from: f, on, lateral });
